@@ -4,7 +4,7 @@
    FULL STATEMENT (kept visible; see the _partial theorems below for what is proved of it). *)
 From Coq Require Import QArith List Arith ZArith Permutation Sorted.
 From BCT Require Import Base.Mat Base.SumQ Base.ListX Model.Between
-  Proofs.BetweenAccum Proofs.BetweenReady Proofs.BetweenQueue Proofs.BetweenSpec Proofs.BetweenBin.
+  Proofs.BetweenAccum Proofs.BetweenReady Proofs.BetweenQueue Proofs.BetweenSpec Proofs.BetweenBin Proofs.BetweenPaths.
 Import ListNotations.
 Open Scope Q_scope.
 
@@ -122,6 +122,25 @@ Theorem C08_queue_slots_bin : forall n G u, (u < n)%nat ->
 Proof. exact queue_slots_b_full. Qed.
 
 (* ------------------------------------------------------------------------------------------ *)
+(* (5) path-counting phase                                                                      *)
+(* ------------------------------------------------------------------------------------------ *)
+(* full statement for the weighted search (NOT proved in full): distances, path counts and predecessor sets *)
+Definition search_correct_wei : Prop := forall n G u, (u < n)%nat -> nonneg_len n G ->
+  exists st, source_w n G u = Some st /\
+    (forall x, (x < n)%nat -> sD st x = dist_spec n G u x) /\
+    (forall x, (x < n)%nat -> sNP st x = sigma n G u x) /\
+    (forall w v, (w < n)%nat -> (v < n)%nat ->
+       (sP st w v = true <-> edge G v w = true /\ exists dv, sD st v = Some dv /\ sD st w = Some (dv + G v w)%Z)).
+(* _partial: the first clause (D is exactly the minimum walk length, None exactly on unreachable nodes) and
+   NP >= 1 on every reachable node are proved; NP = sigma and the characterisation of P are missing. *)
+Theorem C08_search_wei_dist_partial : forall n G u, (u < n)%nat -> nonneg_len n G ->
+  exists st, source_w n G u = Some st /\
+    (forall x, (x < n)%nat -> match sD st x with Some d => is_dist n G u x d | None => ~ reachable n G u x end) /\
+    (forall x, (x < n)%nat -> sD st x = dist_spec n G u x) /\
+    (forall x, (x < n)%nat -> reachable n G u x -> (1 <= sNP st x)%Z).
+Proof. exact search_w_dist_partial. Qed.
+
+(* ------------------------------------------------------------------------------------------ *)
 (* the routines as a whole: what is proved of bc_correct                                        *)
 (* ------------------------------------------------------------------------------------------ *)
 (* _partial: the routines never fail and return, for every node / connection, the sum over all sources of
@@ -174,6 +193,7 @@ Print Assumptions C08_brandes_accumulation_node.
 Print Assumptions C08_dag_counts_exist.
 Print Assumptions C08_queue_slots_wei.
 Print Assumptions C08_queue_slots_bin.
+Print Assumptions C08_search_wei_dist_partial.
 Print Assumptions C08_ebc_wei_pairsums_partial.
 Print Assumptions C08_bc_wei_pairsums_partial.
 Print Assumptions C08_ebc_bin_pairsums_partial.
